@@ -19,9 +19,20 @@ streaming elements, all inputs and all consumer stop points `k`:
   `Count` one value ahead, a negative stop lags by `|stop|`
   (`map_pulls`, `filter_pulls`, `islice_pulls`, `islice_end`, `count_lookahead`, `negslice_lag`);
 * over an infinite input `Slice(n)` terminates after exactly `n` pulls        (`slice_after_infinite_terminates`);
+* for EVERY pipeline and every infinite input: whatever is settled within a prefix of the input (the
+  k-th result, or the end of the results) is delivered over the infinite input exactly as over the
+  prefix — the pipeline terminates and looks at nothing beyond that prefix    (`pipeline_lazy_infinite`);
+  the same for a finite input followed by anything                            (`pipeline_prefix_determined`);
+  both by a simulation argument: every stage is natural in its upstream generator (`Lemmas/C02Sim.lean`);
+* `Split(bufsize=None)` over an infinite input never returns (documented materialisation)
+                                                                              (`split_none_never_returns`);
 * `Split` hands every result of a block downstream at the clock at which the block was complete
   (before it pulls again) and never buffers more than `bufsize` values        (`split_block_bound`, `split_buffer_bound`);
-* a negative `Slice` never holds more than `|index|` values                   (`negslice_held_bound`). -/
+  it retains at most `2·bufsize` input values (the block bound to `orig_buf` and the one being read),
+  `Count` one, a negative `Slice` `|index|` — `Stage.cap`, the bound the weak-reference oracle of the
+  harness uses                      (`split_retention_bound`, `count_held_bound`, `negslice_held_bound`).
+The hypotheses `Stage.WF` and `seqFuelOK` have executable forms (`Stage.wfb`, `seqFuelOKb`, proved
+equivalent) which the driver evaluates on every generated case. -/
 
 namespace Lena.C02
 
@@ -382,6 +393,51 @@ theorem pipeline_lazy_infinite (els : List (Stage α)) (hwf : ∀ e ∈ els, e.W
   obtain ⟨R, dead, hs, h0, hc, hd⟩ := seq_pipeSim els fu n _ _ (source_pipeSim f n fu)
   unfold Pipe.take at hfin ⊢
   rw [← hfin]
+  apply take_sim hs hc hd k _ _ h0
+  · rw [hfin]; exact hk
+  · rw [hfin]; simp only; split <;> simp
+  · intro e; rw [hfin]; simp only; split <;> simp
+
+/-- a finite input and any continuation of it are indistinguishable until the input reports its end -/
+theorem prefix_pipeSim (pre rest : List α) (fu : Nat) :
+    PipeSim fu pre.length (Pipe.ofList (pre ++ rest)) (Pipe.ofList pre) := by
+  refine ⟨fun (s1 : Src α) (s2 : Src α) => s2.ended = false ∧ s1.ended = false ∧ s1.clock = s2.clock ∧
+      s1.rest = s2.rest ++ rest ∧ s2.clock + s2.rest.length = pre.length,
+    fun (src : Src α) => src.ended = true ∧ src.rest = [] ∧ pre.length < src.clock, ⟨?_, ?_⟩, ?_, ?_, ?_⟩
+  · rintro ⟨r1, c1, e1⟩ ⟨r2, c2, e2⟩ ⟨h1, h2, h3, h4, h5⟩
+    simp only at h1 h2 h3 h4 h5
+    subst h1 h2 h3 h4
+    cases r2 with
+    | nil =>
+      right
+      show OutDead _ (Out.done _)
+      exact ⟨rfl, rfl, by show pre.length < c1 + 1; simp at h5; omega⟩
+    | cons a r =>
+      left
+      show OutRel _ (Out.item _ _) (Out.item _ _)
+      exact ⟨rfl, rfl, rfl, rfl, rfl, by show c1 + 1 + r.length = pre.length; simp at h5; omega⟩
+  · rintro ⟨rest', clock, ended⟩ ⟨h1, h2, h3⟩
+    simp only at h1 h2 h3
+    subst h1 h2
+    show OutDead _ (Out.done _)
+    exact ⟨rfl, rfl, h3⟩
+  · exact ⟨rfl, rfl, rfl, rfl, by simp [Pipe.ofList]⟩
+  · rintro s1 s2 ⟨_, _, h3, _, _⟩
+    exact h3
+  · rintro src ⟨_, _, h3⟩
+    exact h3
+
+/-- **`pipeline_prefix_determined`** — "only the prefix that determines those k results": if what the
+consumer asks for is settled within the input `pre` (`need k ≤ pre.length`: before `pre` is exhausted),
+then whatever follows `pre` in the input is irrelevant — over `pre ++ rest` the consumer receives the
+same `k` results at the same pull counts and causes the same number of pulls, for every `rest`. -/
+theorem pipeline_prefix_determined (els : List (Stage α)) (hwf : ∀ e ∈ els, e.WF) (pre rest : List α) (fu : Nat)
+    (hfu : seqFuelOK els (SF.ofList pre) fu) (k : Nat)
+    (hk : (seqSpec els (SF.ofList pre)).need k ≤ pre.length) :
+    (seqRun els (Pipe.ofList (pre ++ rest))).take fu k = (seqRun els (Pipe.ofList pre)).take fu k := by
+  have hfin := pipeline_lazy els hwf pre fu hfu k
+  obtain ⟨R, dead, hs, h0, hc, hd⟩ := seq_pipeSim els fu pre.length _ _ (prefix_pipeSim pre rest fu)
+  unfold Pipe.take at hfin ⊢
   apply take_sim hs hc hd k _ _ h0
   · rw [hfin]; exact hk
   · rw [hfin]; simp only; split <;> simp
